@@ -126,8 +126,37 @@ def _r1_subtile(run, ev):
         run.violated("C13.R1", f, None, "is_subtile is not `n equal: x == x and y == y; else the same question for pos_parent(deeper)[0]` (returns: %s)" %
                      [show(t)[:80] for pc, t in rets], kind="is-subtile")
     else:
-        run.undecided("C13.R1", f, None, "is_subtile has neither the recursive nor the iterative ancestor-climbing shape (returns: %s)" %
-                      [show(t)[:80] for pc, t in rets], kind="is-subtile-shape")
+        # unknown shape: search the positions of levels 0..4 for a pair on which the returned value is wrong (a counterexample is a
+        # definite violation; agreement on the grid proves nothing)
+        cex = _subtile_counterexample(r, d, s)
+        if cex is not None:
+            run.violated("C13.R1", f, None, "is_subtile(%s, %s) evaluates to %s, but the first %s a descendant of the second" % (
+                cex[0], cex[1], cex[2], "is" if cex[3] else "is not"), kind="is-subtile")
+        else:
+            run.undecided("C13.R1", f, None, "is_subtile has neither the recursive nor the iterative ancestor-climbing shape (returns: %s)" %
+                          [show(t)[:80] for pc, t in rets], kind="is-subtile-shape")
+
+
+def _subtile_counterexample(r, d, s):
+    from sa.teval import teval, UNKNOWN
+    val = boolalg.fold_returns([x for x in r.returns])
+    if val is None or any(c[0] == "loop" for pc, t, n in r.returns for c in pc):
+        return None
+    for sn in range(0, 4):
+        for sx in range(2 ** sn):
+            for sy in range(2 ** sn):
+                for dn in range(sn, 5):
+                    for dx in range(2 ** dn):
+                        for dy in range(2 ** dn):
+                            env = {("attr", d, "n"): dn, ("attr", d, "x"): dx, ("attr", d, "y"): dy,
+                                   ("attr", s, "n"): sn, ("attr", s, "x"): sx, ("attr", s, "y"): sy}
+                            got = teval(val, env)
+                            if got is UNKNOWN:
+                                return None
+                            want = (dx >> (dn - sn), dy >> (dn - sn)) == (sx, sy)
+                            if bool(got) != want:
+                                return "Pos(%d,%d,%d)" % (dn, dx, dy), "Pos(%d,%d,%d)" % (sn, sx, sy), bool(got), want
+    return None
 
 
 def _norm_shift(t):
